@@ -187,7 +187,7 @@ MtCreate(t, c) ==
 
 Create(t, c) ==
     /\ CanCreate(t, c)
-    /\ UNCHANGED torn
+    /\ UNCHANGED <<env, torn>>
     /\ IF Policy = "mtsafe"
          THEN MtCreate(t, c) /\ UNCHANGED inv
          ELSE LET r == SeqCreate(c) IN
@@ -202,7 +202,7 @@ New(t) ==
         sz == Sz(c) + Trailer
         s == Lowest(heap) IN
     /\ pc[t].at \in {"new_heap", "new_shared"}
-    /\ UNCHANGED <<busy, inv, torn>>
+    /\ UNCHANGED <<env, busy, inv, torn>>
     /\ IF At(t, "new_heap")
          THEN /\ Commit(DoNew(St, sz))
               /\ fr' = Append(fr, Rec(c, "heap", s, sz, "own", FALSE))
@@ -221,7 +221,7 @@ Del(t) ==
     LET c == pc[t].c
         sz == Sz(c) + Trailer IN
     /\ pc[t].at \in {"del_old", "del_after", "delete"}
-    /\ UNCHANGED <<busy, inv, torn>>
+    /\ UNCHANGED <<env, busy, inv, torn>>
     /\ CASE At(t, "del_old") ->      \* coro_storage.h:50: _ptr keeps the released address until line 51
               /\ Commit(DoDel(St, ptr))
               /\ Park(t, "new_shared", c, 0)
@@ -241,7 +241,7 @@ Del(t) ==
 Complete(t, f) ==
     /\ ~torn /\ At(t, "idle") /\ f \in Live
     /\ fr' = [fr EXCEPT ![f] = Gone(@)]
-    /\ UNCHANGED <<inv, torn>>
+    /\ UNCHANGED <<env, inv, torn>>
     /\ IF Policy = "mtsafe"
          THEN IF fr[f].slot = ptr
                 THEN IF Grain = "call"
@@ -257,7 +257,7 @@ Store(t) ==
     /\ At(t, "store")
     /\ busy' = FALSE
     /\ Resume(t)
-    /\ Same /\ UNCHANGED <<fr, inv, torn>>
+    /\ Same /\ UNCHANGED <<env, fr, inv, torn>>
 
 (* the storage object is destroyed (no frame alive): ~reusable_storage, ~vector *)
 Teardown ==
@@ -267,13 +267,12 @@ Teardown ==
          THEN Commit([DoDel(St, ptr) EXCEPT !.ptr = 0, !.cap = 0])
          ELSE Same
     /\ inv' = 0
-    /\ UNCHANGED <<fr, busy, pc>>
+    /\ UNCHANGED <<env, fr, busy, pc>>
 
-Next == /\ \/ \E t \in Threads, c \in 1..3 : Create(t, c)
-           \/ \E t \in Threads, f \in 1..MaxCreate : Complete(t, f)
-           \/ \E t \in Threads : New(t) \/ Del(t) \/ Store(t)
-           \/ Teardown
-        /\ UNCHANGED env
+Next == \/ \E t \in Threads, c \in 1..3 : Create(t, c)
+        \/ \E t \in Threads, f \in 1..MaxCreate : Complete(t, f)
+        \/ \E t \in Threads : New(t) \/ Del(t) \/ Store(t)
+        \/ Teardown
 
 Spec == Init /\ [][Next]_vars
 
